@@ -40,17 +40,13 @@ theorem computeStats_values (m : Metrics) : (computeStats m).values = m.values :
 the same statistics.  (With the truncation `m.RValues[:0]` removed — the defect repaired by
 152ffa4 — `fenceLoop_eq` yields `old ++ retained` instead and this theorem is false.) -/
 theorem computeStats_idempotent (m : Metrics) : computeStats (computeStats m) = computeStats m := by
-  have hv := computeStats_values m
-  unfold computeStats at hv ⊢
-  simp only at hv ⊢
+  unfold computeStats
+  simp only [fenceLoop_eq, List.take_zero, List.nil_append]
 
 theorem updateStats_idempotent (c : Coll) : updateStats (updateStats c) = updateStats c := by
   unfold updateStats
   simp only [List.map_map]
   congr 1
-  apply List.map_congr_left
-  intro ⟨k, m⟩ _
-  simp [Function.comp, computeStats_idempotent]
 
 /-- **tables_idempotent** — calling `Tables()` again on the collection left by a first call
 returns the same collection state and the same tables. -/
